@@ -316,6 +316,8 @@ pub fn interleavings(w: &mut impl std::io::Write) -> usize {
                     match (&r1, first) {
                         (Err(e), Some(k)) if e.kind() == k => {}
                         (Err(e), None) if e.kind() == UnexpectedEof => {}
+                        // an Interrupted answer may be retried transparently (C06 / C12): the retry then meets the end of the script
+                        (Err(e), Some(Interrupted)) if e.kind() == UnexpectedEof => {}
                         other => return Err(format!("first call: {:?}", other.0.as_ref().map_err(|e| e.kind()))),
                     }
                     let tail: &[u8] = b"\r\n";
